@@ -404,6 +404,7 @@ func runC14(r *Result, d *drv.Driver, tier string, seed int64, replay string) {
 		}
 	}
 	clientStates(r, d, ca)
+	c14WireRequest(r, d, ca, seed)
 	// end to end against the package's own Server
 	endToEnd(r, ca)
 }
